@@ -36,6 +36,7 @@ macro_rules! vcover {
     }};
 }
 
+pub mod slice;
 pub mod stride;
 
 /// Boundary alphabet used by the native counterexample search.
@@ -56,9 +57,17 @@ pub fn dispatch(name: &str, v: &[u64]) -> bool {
     match name {
         "stride_push_contract" if v.len() == 5 => stride::check_push(v[0] as u8, v[1] as usize, v[2] as usize, v[3] as usize, v[4] as usize),
         "stride_index_contract" if v.len() == 5 => stride::check_index(v[0] as u8, v[1] as usize, v[2] as usize, v[3] as usize, v[4] as usize),
+        "slice_get_oob" if v.len() == 4 => slice::check_get(v[0] as usize, v[1] as usize, v[2] as usize, v[3] as usize),
+        "slice_get_owned_oob" if v.len() == 2 => slice::check_get_owned(v[0] as usize, v[1] as usize),
         _ => return false,
     }
     true
+}
+
+/// Harnesses in which a panic raised by the code under test is the *required* behaviour for some inputs (fail-stop
+/// accessors); only `VF:` marker assertions are verdicts there.
+pub fn panic_allowed(name: &str) -> bool {
+    matches!(name, "slice_get_oob" | "slice_get_owned_oob")
 }
 
 /// Harness precondition on concrete inputs (so that the search does not count rejected inputs).
@@ -66,6 +75,8 @@ pub fn pre(name: &str, v: &[u64]) -> bool {
     match name {
         "stride_push_contract" => stride::pre_push(v[0] as u8, v[1] as usize, v[2] as usize, v[3] as usize),
         "stride_index_contract" => stride::pre_index(v[0] as u8, v[1] as usize, v[2] as usize, v[3] as usize, v[4] as usize),
+        "slice_get_oob" => v[0] <= 3 && v[1] <= 3 && v[2] < 2,
+        "slice_get_owned_oob" => v[0] <= 3,
         _ => true,
     }
 }
@@ -75,6 +86,8 @@ pub fn domains(name: &str) -> Option<Vec<Vec<u64>>> {
     let b = boundary();
     match name {
         "stride_push_contract" | "stride_index_contract" => Some(vec![vec![0, 1, 2, 3], b.clone(), b.clone(), b.clone(), b]),
+        "slice_get_oob" => Some(vec![vec![0, 1, 2, 3], vec![0, 1, 2, 3], vec![0, 1], b]),
+        "slice_get_owned_oob" => Some(vec![vec![0, 1, 2, 3], b]),
         _ => None,
     }
 }
